@@ -185,7 +185,7 @@ class EnergyScanResult:
         times = np.logspace(-4, np.log10(self._t_max), 500)
         times = np.clip(times, a_min=0, a_max=self._t_max)
         per_time = [self.abundance_at_time(t)[1][cs, :] for t in times]
-        return self._energies.copy(), times, np.row_stack(per_time)
+        return self._energies.copy(), times, np.vstack(per_time)
 
     def plot_abundance_at_time(self, t, cs=None, **kwargs):
         """
